@@ -62,7 +62,7 @@ func (s *ckSim) mkStreamed(id int, from uint64, index uint64) *ckStream {
 	st := &ckStream{id: id, from: from, index: index, files: map[string][]byte{}, streamed: true}
 	sink := &ckSink{}
 	cw := rsm.NewChunkWriter(sink, rsm.SSMeta{From: from, Index: index, Term: 3, OnDiskIndex: index,
-		Membership: pb.Membership{Addresses: map[uint64]string{1: "a1", 2: "a2", 3: "a3"}}})
+		Membership: pb.Membership{Addresses: map[uint64]string{1: "a1", 2: "a2", 11: "a11"}}})
 	payload := make([]byte, s.rng.Intn(2600))
 	if s.big {
 		payload = make([]byte, 3<<20+s.rng.Intn(4<<20))
@@ -236,7 +236,7 @@ func (s *ckSim) mkStream(id int, from uint64, index uint64) *ckStream {
 	mainBytes := read(mainPath)
 	st.files[mainName] = mainBytes
 	ss := pb.Snapshot{Filepath: mainPath, FileSize: uint64(len(mainBytes)), Index: index, Term: 3,
-		Membership: pb.Membership{Addresses: map[uint64]string{1: "a1", 2: "a2", 3: "a3"}}}
+		Membership: pb.Membership{Addresses: map[uint64]string{1: "a1", 2: "a2", 11: "a11"}}}
 	nExt := s.rng.Intn(3)
 	for i := 0; i < nExt; i++ {
 		name := fmt.Sprintf("external-file-%d", i+1)
@@ -380,7 +380,7 @@ func (s *ckSim) run(steps int) {
 		}
 		return s.mkStream(id, from, index)
 	}
-	s.streams = []*ckStream{mk(0, 1, 100), mk(1, 3, 100), mk(2, 1, 200)}
+	s.streams = []*ckStream{mk(0, 1, 100), mk(1, 11, 100), mk(2, 1, 200)} // a sender id above 9: decimal in directory names
 	nm := []int{}
 	for _, st := range s.streams {
 		nm = append(nm, st.nMain)
